@@ -50,6 +50,22 @@ SPECS = {
                 assume=["loopback QUIC; the scripted replier speaks the wire protocol directly and echoes request headers like the real replier",
                         "request timeout 300 ms; 'now' replies are sent within milliseconds, 'late' replies after at least 600 ms",
                         "calls are issued concurrently on a requestor, its clone and a second requestor stream whose req_ids collide"]),
+    "C15": dict(module="Handshake", cfg="MC_Handshake.cfg", sub="tls", bin="e2e",
+                trace=("Trace_Handshake", "Trace_Handshake.cfg"), level="model_checking",
+                quick=dict(cap=None, extra=[]),
+                thorough=dict(cap=None, extra=[], repeat=3),
+                assume=["the specification models the trust decision, not TLS; rustls/quinn are trusted to verify chains",
+                        "two independent certificate sets from the bundled generator and an rcgen self-signed certificate, fresh keys every run",
+                        "the no-certificate client is a raw quinn peer (the client builder cannot omit the certificate)"]),
+    "C12": dict(module="KeepAlive", cfg="MC_KeepAlive.cfg", sub="keepalive", bin="e2e",
+                trace=("Trace_KeepAlive", "Trace_KeepAlive.cfg"), level="fault_enumeration",
+                quick=dict(cap=28, extra=[]),
+                thorough=dict(cap=None, extra=[]),
+                assume=["the connection is cut with the verification hook Client::verif_close_connection (cfg selium_verif)",
+                        "attempt outcomes are scripted by swapping the server listening on the port: same CA = success, other CA = fast recoverable "
+                        "failure, fresh server with the topic taken by the other messaging pattern = unrecoverable error",
+                        "attempt events come from the client's own tracing output; back-off step 300 ms; a run whose server swap did not take effect in "
+                        "time is reported as inconclusive (NOTE), never as a violation"]),
     "C14": dict(module="Pipeline", cfg="MC_Pipeline.cfg", sub="pipeline", trace=("Trace_Pipeline", "Trace_Pipeline.cfg"),
                 level="exploration",
                 quick=dict(cap=700, extra=[]),
